@@ -644,6 +644,9 @@ func acceptedSignature(fe string, op Op, rule string) string {
 		return "C20/sticky/" + fe + "/call-accepted-after-an-earlier-error"
 	case rule == "compiled":
 		return "C20/compiled/" + fe + "/" + callName(op) + "-accepted-after-successful-compile"
+	case strings.HasPrefix(rule, "compiled/"):
+		// a modification of a compiled Workflow that only the next Compile can report
+		return "C20/compiled/" + fe + "/" + callName(op) + "-accepted-after-" + strings.TrimPrefix(rule, "compiled/")
 	}
 	return "C20/accepted-ill-formed/" + site + "/" + rule
 }
@@ -902,6 +905,14 @@ func (c *checker) checkSeq(s *Seq) {
 			}
 		} else if p.rule == "sticky" {
 			rep.Count("sticky_errors_checked", 1)
+		} else if s.FE == "workflow" && op.K == "K" && (p.rule == "compiled" || strings.HasPrefix(p.rule, "compiled/")) {
+			// a Workflow reports a modification after a successful Compile through the next Compile: with ErrGraphCompiled
+			rep.Count("workflow_late_modification_reported_by_compile", 1)
+			if !errors.Is(res.Err, compose.ErrGraphCompiled) {
+				rep.Violation("C20/compiled/workflow/compile-error-is-not-ErrGraphCompiled",
+					fmt.Sprintf("Compile after a modification of the compiled Workflow returned %q, not ErrGraphCompiled\n%s", firstLine(res.Err.Error()), text(i)), w)
+				agree = false
+			}
 		}
 		if !agree {
 			break
